@@ -133,7 +133,9 @@ class StubSFTP(SFTPServerInterface):
         else:
             fstr = "rb"
         try:
-            f = os.fdopen(fd, fstr)
+            # unbuffered: the handle shows the file as it is now, also after it was changed through
+            # another handle or by path (a buffered reader would serve stale read-ahead)
+            f = os.fdopen(fd, fstr, buffering=0)
         except OSError as e:
             return SFTPServer.convert_errno(e.errno)
         fobj = Handle(flags)
